@@ -105,6 +105,20 @@ def range_rule(prog: Program, rep, RID: str, cname: str, mname: str):
                         def visit_Attribute(self, node):
                             return st.value if dotted(node) == d else self.generic_visit(node)
                     hi = _S().visit(hi)
+    class _SumIfExp(ast.NodeTransformer):
+        """`sum(f(c) for c in X) if X else 0`  is  `sum(f(c) for c in (X or []))`  (X is None or a list)"""
+
+        def visit_IfExp(self, node):
+            self.generic_visit(node)
+            b = node.body
+            if isinstance(node.orelse, ast.Constant) and node.orelse.value == 0 and isinstance(b, ast.Call) and dotted(b.func) == "sum" and len(b.args) == 1 and \
+                    isinstance(b.args[0], (ast.GeneratorExp, ast.ListComp)) and len(b.args[0].generators) == 1 and norm(b.args[0].generators[0].iter) == norm(node.test):
+                g = b.args[0]
+                new_iter = ast.BoolOp(op=ast.Or(), values=[node.test, ast.List(elts=[], ctx=ast.Load())])
+                gen = ast.comprehension(target=g.generators[0].target, iter=new_iter, ifs=g.generators[0].ifs, is_async=0)
+                return ast.fix_missing_locations(ast.copy_location(ast.Call(func=b.func, args=[type(g)(elt=g.elt, generators=[gen])], keywords=[]), node))
+            return node
+    hi = _SumIfExp().visit(ast.parse(norm(hi), mode="eval").body)
     canonical = atoms[-1]
     need = Poly.atom(canonical) + Poly.const(extra + 1)          # exclusive bound must be >= K + 1
     # a required summand given as a pattern stands for whatever atom of the bound matches it (a fresh atom if none does)
